@@ -530,6 +530,12 @@ class PyFat(object):
         max_clus = self.FAT_CLUSTER_VALUES[self.fat_type]["MAX_DATA_CLUSTER"]
         num_clusters = self.calc_num_clusters(size)
 
+        # Never hand out clusters beyond the data area of the volume, the
+        # FAT usually has more entries than the volume has clusters
+        data_sectors = self._get_total_sectors() - self.first_data_sector
+        max_clus = min(max_clus,
+                       data_sectors // self.bpb_header["BPB_SecPerClus"] + 1)
+
         # Fill list of found free clusters
         free_clusters = []
         for i in range(self.first_free_cluster, len(self.fat)):
@@ -553,10 +559,11 @@ class PyFat(object):
 
                 free_clusters += [i]
         else:
-            free_space = len(free_clusters) * self.bytes_per_cluster
-            raise PyFATException(f"Not enough free space to allocate "
-                                 f"{size} bytes ({free_space} bytes free)",
-                                 errno=errno.ENOSPC)
+            if num_clusters != len(free_clusters):
+                free_space = len(free_clusters) * self.bytes_per_cluster
+                raise PyFATException(f"Not enough free space to allocate "
+                                     f"{size} bytes ({free_space} bytes "
+                                     f"free)", errno=errno.ENOSPC)
         self.first_free_cluster = i
 
         # Allocate cluster chain in FAT
